@@ -285,7 +285,7 @@ CHECKS = {
         "valid results; late exceptions and unbounded pool populations "
         "(> 2e6 latent draws in one population) are violations keyed by call "
         "site; all pairs of option values inside five option groups "
-        "(contour, training, flow, optimisation, levels: 700 pairs) are enumerated, a "
+        "(contour, training, flow, optimisation, levels: 707 pairs) are enumerated, a "
         "third per quick run; importance-sampler cases carry the "
         "configured-stopping-rule monitor. Quick ~350 runs, thorough ~1150.",
         "Iteration cap on every case; wall-clock backstop = inconclusive.",
